@@ -376,3 +376,17 @@ func H_C04_interior_pointers() {
 	o.Self = f
 	vRunNested("C04 pointers into the object being validated", o, false)
 }
+
+// by-value struct elements of a map, each with groups of its own: every entry is judged on its own values
+type vN10 struct {
+	Contacts map[string]vG2 `valid:"exist"`
+	Pairs    map[int]vGS    `valid:"required"`
+}
+
+func H_C04_map_values_with_groups() {
+	o := &vN10{
+		Contacts: map[string]vG2{"a": {A: vStr("aA"), Z: "z"}, "b": {B: vStr("bB"), Z: "z"}, "c": {Z: "z"}},
+		Pairs:    map[int]vGS{1: {A: vStr("p1A"), B: "x"}, 2: {A: "y", B: "y"}},
+	}
+	vRunNested("C04 map of struct values with groups", o, true)
+}
